@@ -1,0 +1,11 @@
+//go:build verif
+// +build verif
+
+package poseidon
+
+import "github.com/iden3/go-iden3-crypto/v2/ff"
+
+// VerifTables returns the parsed in-memory constant tables (verification hook, build tag "verif").
+func VerifTables() (cc [][]*ff.Element, s [][]*ff.Element, m [][][]*ff.Element, p [][][]*ff.Element) {
+	return c.c, c.s, c.m, c.p
+}
